@@ -17,6 +17,7 @@ R4 queue discipline: Tasks.queue is touched only by append and, in run_job, a tr
 from __future__ import annotations
 
 import ast
+from typing import List
 
 from ..engine import Analysis, describe_path
 from ..frontend import AnalysisError, unparse
@@ -108,12 +109,34 @@ def queue_discipline(analysis: Analysis, res: RuleResult) -> None:
             res.add("C16-R4", f"{fn} / Tasks.queue access `{kind}`", ok, common.where(analysis, mod, node), "thread-safe deque operations: append by any producer, popleft by the single consumer" if ok else "the job queue is accessed in a way that is not safe / not FIFO under concurrent producers")
     if n < 4:
         raise AnalysisError(f"C16-R4: only {n} accesses of Tasks.queue found")
-    callers = []
-    for m in common.core_modules(analysis):
-        for node in ast.walk(m.tree):
-            if isinstance(node, ast.Call) and isinstance(node.func, ast.Attribute) and node.func.attr == "run_job" and not node.args and not node.keywords:
-                callers.append(common.func_of_node(analysis, m, node))
-    res.add("C16-R4", "run_job() without argument has a single caller, the pump", callers == ["task:SyncTasks._poll_queue"], "mysensors/task.py", f"callers {callers}")
+    # who takes jobs from the queue: run_job pops only when its job argument is None; a helper that forwards an
+    # optional parameter to it is a consumer exactly when it is itself called without that argument
+    def none_callers(target: str, depth: int = 0) -> List[str]:
+        """Functions that (transitively) call method `target` without a job / with a defaulted one."""
+        found: List[str] = []
+        for m in common.core_modules(analysis):
+            for node in ast.walk(m.tree):
+                if not (isinstance(node, ast.Call) and isinstance(node.func, ast.Attribute) and node.func.attr == target):
+                    continue
+                fn = common.func_of_node(analysis, m, node)
+                arg = node.args[0] if node.args else next((k.value for k in node.keywords if k.arg == "job"), None)
+                if arg is None:
+                    found.append(fn)
+                elif isinstance(arg, ast.Constant) and arg.value is None:
+                    found.append(fn)
+                elif isinstance(arg, ast.Name) and depth < 3:
+                    info = analysis.p.funcs.get(fn)
+                    if info is not None:
+                        params = [a.arg for a in info.node.args.args]
+                        defaults = dict(zip(params[len(params) - len(info.node.args.defaults):], info.node.args.defaults))
+                        d = defaults.get(arg.id)
+                        if arg.id in params and isinstance(d, ast.Constant) and d.value is None:
+                            # forwards its own optional job: whoever calls it without one is the consumer
+                            found.extend(none_callers(fn.rsplit(".", 1)[-1], depth + 1))
+        return found
+
+    callers = sorted(set(none_callers("run_job")))
+    res.add("C16-R4", "run_job() without a job (the call that pops the queue) is reached from the pump only", callers == ["task:SyncTasks._poll_queue"], "mysensors/task.py", f"consumers {callers}")
     info = analysis.p.func("transport:SyncTransport.send")
     ok = False
     for w in ast.walk(info.node):
